@@ -1,18 +1,718 @@
 package main
 
 import (
+	"fmt"
+	"sort"
+	"strings"
+
+	nri "github.com/containerd/nri/pkg/api"
+
+	balloons "github.com/containers/nri-plugins/cmd/plugins/balloons/policy"
+	topologyaware "github.com/containers/nri-plugins/cmd/plugins/topology-aware/policy"
+	"github.com/containers/nri-plugins/pkg/cpuallocator"
 	"github.com/containers/nri-plugins/pkg/resmgr"
+	libmem "github.com/containers/nri-plugins/pkg/resmgr/lib/memory"
 	policyapi "github.com/containers/nri-plugins/pkg/resmgr/policy"
+	"github.com/containers/nri-plugins/pkg/sysfs"
+	"github.com/containers/nri-plugins/pkg/utils/cpuset"
 )
 
 func policyPolicy(w *world) policyapi.Policy { return resmgr.VerifPolicy(w.rm) }
 
-type c13state struct{}
+func (o *oracles) memAllocator() *libmem.Allocator {
+	if o.w.plan.Policy == "balloons" {
+		return balloons.VerifMemAllocator(o.w.backend())
+	}
+	return topologyaware.VerifMemAllocator(o.w.backend())
+}
 
-func (o *oracles) checkC04(rep reporter, r *reply) {}
-func (o *oracles) checkC09Stopped(rep reporter)    {}
-func (o *oracles) checkC09End(rep reporter)        {}
-func (o *oracles) checkC11(rep reporter, r *reply) {}
-func (o *oracles) checkC13(rep reporter, r *reply) {}
-func (o *oracles) checkC16(rep reporter)           {}
-func (o *oracles) wrapAllocator()                  {}
+func maskString(m libmem.NodeMask) string { return m.MemsetString() }
+
+// memPinned: memory pinning applies to the container
+func (o *oracles) memPinned(y *rCtr) bool { return !o.memOptedOut(y) }
+
+// ---------------------------------------------------------------------------
+// C04
+
+func (o *oracles) zonesNow() map[string]uint64 {
+	a := o.memAllocator()
+	out := map[string]uint64{}
+	if a == nil {
+		return out
+	}
+	for id := range o.w.rt.ctrs {
+		if z, ok := a.AssignedZone(id); ok {
+			out[id] = uint64(z)
+		}
+	}
+	return out
+}
+
+func (o *oracles) rememberZones() {
+	if o.w.prop == "C04" || o.w.prop == "C11" || o.w.prop == "C13" {
+		o.prevZone = o.zonesNow()
+	}
+}
+
+func (o *oracles) checkC04(rep reporter, r *reply) {
+	w := o.w
+	a := o.memAllocator()
+	if a == nil {
+		return
+	}
+	res := w.res
+	m := w.plan.Machine
+	capOf := func(z libmem.NodeMask) int64 {
+		var c int64
+		for _, n := range m.Nodes {
+			if z.Contains(n.ID) {
+				c += int64(n.MemKB) * 1024
+			}
+		}
+		return c
+	}
+	var hasMem libmem.NodeMask
+	for _, n := range m.Nodes {
+		if n.MemKB > 0 {
+			hasMem |= libmem.NewNodeMask(n.ID)
+		}
+	}
+	now := o.zonesNow()
+	// told mems == assigned zone; non-empty; existing nodes with memory
+	for _, y := range w.rt.active() {
+		if !o.memPinned(y) {
+			continue
+		}
+		z, ok := now[y.spec.ID]
+		if y.t.MemsSet {
+			res.Check("mems-wellformed")
+			t := parseSet(y.t.Mems)
+			bad := cset{}
+			for id := range t {
+				if !hasMem.Contains(id) {
+					bad[id] = true
+				}
+			}
+			if len(t) == 0 || len(bad) > 0 {
+				what := "mems-wellformed"
+				allMemless := len(bad) > 0
+				for id := range bad {
+					found := false
+					for _, n := range m.Nodes {
+						if n.ID == id && n.MemKB == 0 && len(n.CPUs) > 0 {
+							found = true
+						}
+					}
+					if !found {
+						allMemless = false
+					}
+				}
+				if allMemless {
+					what += " includes-memoryless-cpu-node"
+				}
+				rep("mems-wellformed", what, "container %s has been told memory nodes %q: empty, or nodes %s do not exist / have no memory", y.spec.ID, y.t.Mems, bad)
+			}
+		}
+		if !ok || r.err != nil || y.t.staleUntilNextUpdate {
+			continue
+		}
+		res.Check("mems-follow-allocator")
+		want := maskString(libmem.NodeMask(z))
+		if !y.t.MemsSet || !parseSet(y.t.Mems).equal(parseSet(want)) {
+			cause := ""
+			if y.lostGrant != "" {
+				cause = " victim-lost-grant"
+			} else if w.rejectedReconf {
+				cause = " after-rejected-reconfigure"
+			}
+			rep("mems-follow-allocator", "mems-follow-allocator"+cause, "after %s: the allocator assigns zone %q to %s but the runtime has been told memory nodes %q", r.kind, want, y.spec.ID, y.t.Mems)
+		}
+	}
+	// capacity of assigned zones and their unions (after successful requests)
+	if r.err == nil {
+		type rq struct {
+			zone libmem.NodeMask
+			size int64
+		}
+		var reqs []rq
+		zset := map[libmem.NodeMask]bool{}
+		a.ForeachRequest(nil, func(q *libmem.Request) bool {
+			reqs = append(reqs, rq{q.Zone(), q.Size()})
+			zset[q.Zone()] = true
+			return true
+		})
+		zs := make([]libmem.NodeMask, 0, len(zset))
+		for z := range zset {
+			zs = append(zs, z)
+		}
+		sort.Slice(zs, func(i, j int) bool { return zs[i] < zs[j] })
+		if len(zs) > 10 {
+			zs = zs[:10]
+		}
+		confined := func(u libmem.NodeMask) int64 {
+			var s int64
+			for _, q := range reqs {
+				if q.zone&u == q.zone {
+					s += q.size
+				}
+			}
+			return s
+		}
+		broken := false
+		for _, z := range zs {
+			res.Check("zone-capacity")
+			if used, c := confined(z), capOf(z); used > c {
+				rep("zone-capacity", "zone-capacity zone", "after %s: allocations confined to assigned zone %s total %d > capacity %d", r.kind, z, used, c)
+				broken = true
+				break
+			}
+		}
+		seen := map[libmem.NodeMask]bool{}
+		for mk := 1; !broken && mk < 1<<uint(len(zs)); mk++ {
+			var u libmem.NodeMask
+			n := 0
+			for i, z := range zs {
+				if mk&(1<<uint(i)) != 0 {
+					u |= z
+					n++
+				}
+			}
+			if n < 2 || seen[u] || zset[u] {
+				continue
+			}
+			seen[u] = true
+			res.Check("zone-capacity")
+			if used, c := confined(u), capOf(u); used > c {
+				rep("zone-capacity", "zone-capacity union-of-zones", "after %s: every assigned zone fits, but allocations confined to the union %s total %d > capacity %d", r.kind, u, used, c)
+				break
+			}
+		}
+	}
+	// zone changes are delivered in the same request
+	if r.err == nil {
+		delivered := map[string]string{}
+		note := func(id string, lr *nri.LinuxResources) {
+			if lr != nil && lr.Cpu != nil && lr.Cpu.Mems != "" {
+				delivered[id] = lr.Cpu.Mems
+			}
+		}
+		if r.adjust != nil && r.adjust.Linux != nil {
+			note(r.target, r.adjust.Linux.Resources)
+		}
+		for _, u := range r.updates {
+			if u.Linux != nil {
+				note(u.ContainerId, u.Linux.Resources)
+			}
+		}
+		for _, p := range r.pushed {
+			for _, u := range p {
+				if u.Linux != nil {
+					note(u.ContainerId, u.Linux.Resources)
+				}
+			}
+		}
+		for id, z := range now {
+			pz, had := o.prevZone[id]
+			if !had || pz == z {
+				continue
+			}
+			y := w.rt.ctrs[id]
+			if y == nil || (y.state != "created" && y.state != "running") || !o.memPinned(y) || id == r.target {
+				continue
+			}
+			res.Probe("zone-of-other-container-changed")
+			res.Check("zone-change-delivered")
+			want := maskString(libmem.NodeMask(z))
+			if got, ok := delivered[id]; !ok || !parseSet(got).equal(parseSet(want)) {
+				rep("zone-change-delivered", "zone-change-delivered via-"+r.kind, "%s moved the memory zone of %s from %q to %q but the reply tells it %q", r.kind, id, maskString(libmem.NodeMask(pz)), want, got)
+			}
+		}
+	}
+}
+
+// ---------------------------------------------------------------------------
+// C09
+
+func (o *oracles) holdsAnything(id string) string {
+	w := o.w
+	if w.plan.Policy == "topology-aware" {
+		if sn := o.taSnap(); sn != nil {
+			for _, g := range sn.Grants {
+				if g.Container == id {
+					return "a grant in pool " + g.Pool
+				}
+			}
+		}
+	} else if sn := o.balSnap(); sn != nil {
+		if b, n := balloonOf(sn, id); n > 0 {
+			return fmt.Sprintf("membership in balloon %s[%d]", b.Def, b.Instance)
+		}
+	}
+	if a := o.memAllocator(); a != nil {
+		if z, ok := a.AssignedZone(id); ok {
+			return "a memory allocation in " + z.String()
+		}
+	}
+	return ""
+}
+
+func (o *oracles) checkC09Stopped(rep reporter) {
+	w := o.w
+	for _, y := range w.rt.live() {
+		if y.state != "stopped" || !y.stopSeen {
+			continue
+		}
+		w.res.Check("stopped-holds-nothing")
+		if what := o.holdsAnything(y.spec.ID); what != "" {
+			rep("stopped-holds-nothing", "stopped-holds-nothing after-"+o.lastKind, "container %s was stopped but holds %s after %s", y.spec.ID, what, o.lastKind)
+		}
+	}
+}
+
+// pristineDump renders what the policy state must look like with no containers.
+func (o *oracles) pristineDump() string {
+	var b strings.Builder
+	b.WriteString(o.zonesDump())
+	w := o.w
+	if w.plan.Policy == "topology-aware" {
+		if sn := o.taSnap(); sn != nil {
+			fmt.Fprintf(&b, "grants=%d\n", len(sn.Grants))
+			for _, p := range sn.Pools {
+				fmt.Fprintf(&b, "P %s free=(%s|%s|%s) total=(%s|%s|%s) granted=(%d,%d)\n", p.Name, p.FreeIsolated, p.FreeReserved, p.FreeSharable, p.Isolated, p.Reserved, p.Sharable, p.GrantedShared, p.GrantedReserved)
+			}
+		}
+	} else if sn := o.balSnap(); sn != nil {
+		fmt.Fprintf(&b, "free=%s\n", sn.FreeCpus)
+		bs := append([]balloons.VerifBalloon(nil), sn.Balloons...)
+		sort.Slice(bs, func(i, j int) bool {
+			if bs[i].Def != bs[j].Def {
+				return bs[i].Def < bs[j].Def
+			}
+			return bs[i].Instance < bs[j].Instance
+		})
+		for _, bl := range bs {
+			fmt.Fprintf(&b, "B %s[%d] ncpus=%d members=%d\n", bl.Def, bl.Instance, len(parseSet(bl.Cpus)), len(bl.Members))
+		}
+	}
+	if a := o.memAllocator(); a != nil {
+		n := 0
+		a.ForeachRequest(nil, func(*libmem.Request) bool { n++; return true })
+		fmt.Fprintf(&b, "memrequests=%d\n", n)
+	}
+	fmt.Fprintf(&b, "cached-containers=%d\n", len(w.cache().GetContainers()))
+	return b.String()
+}
+
+func (o *oracles) checkC09End(rep reporter) {
+	w := o.w
+	// stop and remove everything through the plugin
+	n := 1000
+	do := func(op Op) {
+		n++
+		op.N = n
+		w.vw.SetRequest(fmt.Sprintf("teardown%d", n))
+		w.doOp(&op)
+	}
+	for _, y := range w.rt.live() {
+		if y.state == "created" || y.state == "running" {
+			do(Op{Kind: "stop", ID: y.spec.ID})
+		}
+	}
+	if w.dead {
+		return
+	}
+	o.lastKind = "teardown-stop"
+	o.checkC09Stopped(rep)
+	for _, y := range w.rt.live() {
+		if y.state == "stopped" {
+			do(Op{Kind: "remove", ID: y.spec.ID})
+		}
+	}
+	for _, id := range sortedKeys(w.rt.pods) {
+		if w.rt.pods[id].state == "running" {
+			do(Op{Kind: "stop-pod", ID: id})
+		}
+	}
+	for _, id := range sortedKeys(w.rt.pods) {
+		if w.rt.pods[id].state == "stopped" {
+			do(Op{Kind: "remove-pod", ID: id})
+		}
+	}
+	if w.dead {
+		return
+	}
+	got := o.pristineDump()
+	rejected := w.rejectedReconf
+	// fresh twin with the last accepted configuration on the same machine
+	tw := &world{plan: w.plan, prop: w.prop, seed: w.seed, res: w.res, vw: w.vw, root: w.root + "/twin", rt: newRuntime(), everActive: map[string]bool{}}
+	w.vw.SetRequest("twin-boot")
+	if err := tw.bootRecover(w.cfg); err != nil {
+		w.res.Extra["twin-boot-refused"]++
+		return
+	}
+	to := newOracles(tw)
+	rp := &reply{kind: "sync"}
+	tw.synchronize(rp)
+	want := to.pristineDump()
+	w.res.Check("pristine-after-teardown")
+	if got != want {
+		ctx := ""
+		if rejected {
+			ctx = " after-rejected-reconfigure"
+		}
+		rep("pristine-after-teardown", "pristine-after-teardown "+w.plan.Policy+ctx+" "+firstDiffKind(want, got), "after stopping and removing everything the policy state differs from a fresh instance with the same configuration:\n%s", firstDiffLines(want, got))
+	}
+}
+
+func firstDiffLines(a, b string) string {
+	la, lb := strings.Split(a, "\n"), strings.Split(b, "\n")
+	var out []string
+	for i := 0; i < len(la) || i < len(lb); i++ {
+		var x, y string
+		if i < len(la) {
+			x = la[i]
+		}
+		if i < len(lb) {
+			y = lb[i]
+		}
+		if x != y {
+			out = append(out, " fresh: "+x, " got:   "+y)
+			if len(out) >= 8 {
+				break
+			}
+		}
+	}
+	return strings.Join(out, "\n")
+}
+
+func firstDiffKind(a, b string) string {
+	la, lb := strings.Split(a, "\n"), strings.Split(b, "\n")
+	for i := 0; i < len(la) || i < len(lb); i++ {
+		var x, y string
+		if i < len(la) {
+			x = la[i]
+		}
+		if i < len(lb) {
+			y = lb[i]
+		}
+		if x != y {
+			for _, z := range []string{x, y} {
+				switch {
+				case strings.HasPrefix(z, "Z "):
+					return "zones"
+				case strings.HasPrefix(z, "P "):
+					return "pool-supply"
+				case strings.HasPrefix(z, "B "):
+					return "balloons"
+				case strings.HasPrefix(z, "grants="):
+					return "grants"
+				case strings.HasPrefix(z, "free="):
+					return "idle-cpus"
+				case strings.HasPrefix(z, "memrequests="):
+					return "memory-allocations"
+				case strings.HasPrefix(z, "cached-containers="):
+					return "cached-containers"
+				}
+			}
+		}
+	}
+	return "other"
+}
+
+// ---------------------------------------------------------------------------
+// C08: checking decorator around the policies' CPU allocator
+
+type allocMonitor struct {
+	inner cpuallocator.CPUAllocator
+	o     *oracles
+}
+
+func (m *allocMonitor) GetCPUPriorities() map[cpuallocator.CPUPriority]cpuset.CPUSet {
+	return m.inner.GetCPUPriorities()
+}
+
+func (m *allocMonitor) check(kind string, before cpuset.CPUSet, from *cpuset.CPUSet, cnt int, got cpuset.CPUSet, err error, redo func(*cpuset.CPUSet) (cpuset.CPUSet, error)) {
+	w := m.o.w
+	res := w.res
+	rep := m.o.report("C08")
+	res.Check("contract")
+	res.Extra[fmt.Sprintf("alloc-calls/%s", kind)]++
+	switch {
+	case cnt > before.Size():
+		if err == nil {
+			rep("contract", "contract "+kind+" too-many-accepted", "%s of %d CPUs from %s (only %d) succeeded with %s", kind, cnt, before, before.Size(), got)
+		} else if !from.Equals(before) {
+			rep("contract", "contract "+kind+" failed-call-changed-set", "failed %s of %d CPUs changed the candidate set from %s to %s", kind, cnt, before, *from)
+		}
+	case err != nil:
+		if cnt >= 0 {
+			rep("contract", "contract "+kind+" refused", "%s of %d CPUs from %s (%d CPUs) failed: %v", kind, cnt, before, before.Size(), err)
+		}
+	default:
+		// ReleaseCpus splits the set into the n released CPUs and the others;
+		// which of the two parts is returned and which is left in the set is
+		// not spelled out by the property: either assignment is accepted
+		okCount := got.Size() == cnt
+		if kind == "release" {
+			okCount = got.Size() == cnt || got.Size() == before.Size()-cnt
+		}
+		if !okCount {
+			rep("contract", "contract "+kind+" count", "%s of %d CPUs from %s returned %d CPUs (%s)", kind, cnt, before, got.Size(), got)
+		}
+		if !got.IsSubsetOf(before) {
+			rep("contract", "contract "+kind+" subset", "%s of %d CPUs from %s returned %s, not a subset", kind, cnt, before, got)
+		}
+		if !from.Equals(before.Difference(got)) {
+			rep("contract", "contract "+kind+" bookkeeping", "%s of %d CPUs from %s returned %s but left the set as %s", kind, cnt, before, got, *from)
+		}
+	}
+	// determinism: the outcome may not depend on map iteration order
+	if cnt <= before.Size() && cnt >= 0 {
+		for _, salt := range []uint64{0x1111, 0x2222} {
+			res.Check("deterministic")
+			old := w.vw.OrderSalt
+			w.vw.OrderSalt = salt
+			cp := before.Clone()
+			g2, e2 := redo(&cp)
+			w.vw.OrderSalt = old
+			if (e2 == nil) != (err == nil) || !g2.Equals(got) {
+				rep("deterministic", "deterministic "+kind, "%s of %d CPUs from %s gives %s under one map iteration order and %s under another", kind, cnt, before, got, g2)
+				break
+			}
+		}
+	}
+}
+
+func (m *allocMonitor) AllocateCpus(from *cpuset.CPUSet, cnt int, options ...cpuallocator.Option) (cpuset.CPUSet, error) {
+	before := from.Clone()
+	got, err := m.inner.AllocateCpus(from, cnt, options...)
+	m.check("allocate", before, from, cnt, got, err, func(cp *cpuset.CPUSet) (cpuset.CPUSet, error) { return m.inner.AllocateCpus(cp, cnt, options...) })
+	return got, err
+}
+
+func (m *allocMonitor) ReleaseCpus(from *cpuset.CPUSet, cnt int, options ...cpuallocator.Option) (cpuset.CPUSet, error) {
+	before := from.Clone()
+	got, err := m.inner.ReleaseCpus(from, cnt, options...)
+	m.check("release", before, from, cnt, got, err, func(cp *cpuset.CPUSet) (cpuset.CPUSet, error) { return m.inner.ReleaseCpus(cp, cnt, options...) })
+	return got, err
+}
+
+func (o *oracles) wrapAllocator() {
+	if o.w.prop != "C08" {
+		return
+	}
+	wrap := func(in cpuallocator.CPUAllocator) cpuallocator.CPUAllocator {
+		if _, ok := in.(*allocMonitor); ok {
+			return in
+		}
+		return &allocMonitor{inner: in, o: o}
+	}
+	if o.w.plan.Policy == "balloons" {
+		balloons.VerifWrapCPUAllocator(o.w.backend(), wrap)
+	} else {
+		topologyaware.VerifWrapCPUAllocator(o.w.backend(), wrap)
+	}
+}
+
+// ---------------------------------------------------------------------------
+// C16: discovery fidelity and pool tree
+
+func idsOf(s cpuset.CPUSet) cset { return setOf(s.List()) }
+
+func (o *oracles) checkC16(rep reporter) {
+	w := o.w
+	m := w.plan.Machine
+	res := w.res
+	sys, err := sysfs.DiscoverSystem()
+	if err != nil {
+		rep("discovery", "discovery failed", "discovery of the rendered machine %s failed: %v", m.Name, err)
+		return
+	}
+	res.Check("discovery")
+	bad := func(what string, format string, a ...any) {
+		rep("discovery", "discovery "+what, "machine %s: "+format, append([]any{m.Name}, a...)...)
+	}
+	online := setOf(m.Online())
+	if got := idsOf(sys.OnlineCPUs()); !got.equal(online) {
+		bad("online", "online CPUs discovered %s, rendered %s", got, online)
+	}
+	if got := idsOf(sys.Isolated()); !got.equal(setOf(m.IsolatedCPUs())) {
+		bad("isolated", "isolated CPUs discovered %s, rendered %s", got, setOf(m.IsolatedCPUs()))
+	}
+	present := setOf(m.Present())
+	if got := setOf(sys.CPUIDs()); !got.equal(present) {
+		bad("cpu-ids", "CPU ids discovered %s, rendered %s", got, present)
+	}
+	for _, c := range m.CPUs {
+		if !c.Online {
+			continue
+		}
+		d := sys.CPU(c.ID)
+		if d == nil {
+			bad("cpu-missing", "CPU %d not discovered", c.ID)
+			continue
+		}
+		if d.PackageID() != c.Pkg || d.NodeID() != c.Node || d.CoreID() != c.Core {
+			bad("cpu-placement", "CPU %d discovered as package %d node %d core %d, rendered package %d node %d core %d", c.ID, d.PackageID(), d.NodeID(), d.CoreID(), c.Pkg, c.Node, c.Core)
+		}
+		if m.HasDieID && d.DieID() != c.Die {
+			bad("cpu-die", "CPU %d discovered in die %d, rendered die %d", c.ID, d.DieID(), c.Die)
+		}
+		if got := idsOf(d.ThreadCPUSet()); !got.equal(setOf(c.Siblings)) {
+			bad("thread-siblings", "CPU %d thread siblings discovered %s, rendered %s", c.ID, got, setOf(c.Siblings))
+		}
+		if m.HasCache {
+			for _, ch := range d.GetCaches() {
+				var want cset
+				switch ch.Level() {
+				case 1:
+					want = setOf(c.Siblings)
+				case 2:
+					want = setOf(c.L2)
+				case 3:
+					want = setOf(c.L3)
+				default:
+					continue
+				}
+				if got := idsOf(ch.SharedCPUSet()); !got.equal(want) {
+					bad("cache-sharing", "CPU %d level-%d cache shared by %s, rendered %s", c.ID, ch.Level(), got, want)
+				}
+			}
+		}
+	}
+	for _, n := range m.Nodes {
+		d := sys.Node(n.ID)
+		if d == nil {
+			bad("node-missing", "node %d not discovered", n.ID)
+			continue
+		}
+		if got := idsOf(d.CPUSet()); !got.equal(setOf(n.CPUs)) {
+			bad("node-cpus", "node %d CPUs discovered %s, rendered %s", n.ID, got, setOf(n.CPUs))
+		}
+		if mi, err := d.MemoryInfo(); err != nil || mi.MemTotal != n.MemKB*1024 {
+			var gotv uint64
+			if mi != nil {
+				gotv = mi.MemTotal
+			}
+			bad("node-memory", "node %d memory discovered %d (err %v), rendered %d", n.ID, gotv, err, n.MemKB*1024)
+		}
+		for _, o2 := range m.Nodes {
+			if got := sys.NodeDistance(n.ID, o2.ID); got != n.Distance[o2.ID] {
+				bad("node-distance", "distance %d->%d discovered %d, rendered %d", n.ID, o2.ID, got, n.Distance[o2.ID])
+				break
+			}
+		}
+	}
+	// pool tree (topology-aware)
+	sn := o.taSnap()
+	if sn == nil {
+		return
+	}
+	res.Check("pool-tree")
+	treeBad := func(what string, format string, a ...any) {
+		rep("pool-tree", "pool-tree "+what, "machine %s: "+format, append([]any{m.Name}, a...)...)
+	}
+	pools := map[string]*topologyaware.VerifPool{}
+	roots := 0
+	for i := range sn.Pools {
+		pools[sn.Pools[i].Name] = &sn.Pools[i]
+		if sn.Pools[i].Parent == "" {
+			roots++
+		}
+	}
+	if roots != 1 {
+		treeBad("single-root", "%d root pools", roots)
+	}
+	cpusOf := func(p *topologyaware.VerifPool) cset {
+		return parseSet(p.Isolated).union(parseSet(p.Reserved)).union(parseSet(p.Sharable))
+	}
+	avail := o.available()
+	if root := pools[sn.Root]; root != nil {
+		if got := cpusOf(root); !got.equal(avail) {
+			treeBad("root-holds-available", "root pool holds CPUs %s, available CPUs are %s", got, avail)
+		}
+		// every memory node with memory belongs to the root
+		rootMem := setOf(root.MemDRAM).union(setOf(root.MemPMEM)).union(setOf(root.MemHBM))
+		for _, n := range m.Nodes {
+			if n.MemKB > 0 && !rootMem[n.ID] {
+				treeBad("root-holds-memory", "memory node %d (%s, %d kB) is not in the root pool's memory set %s", n.ID, n.Type, n.MemKB, rootMem)
+			}
+		}
+	}
+	for _, p := range sn.Pools {
+		iso, rs, sh := parseSet(p.Isolated), parseSet(p.Reserved), parseSet(p.Sharable)
+		if len(iso.inter(rs))+len(iso.inter(sh))+len(rs.inter(sh)) > 0 {
+			treeBad("partition", "pool %s: isolated %s, reserved %s and sharable %s overlap", p.Name, iso, rs, sh)
+		}
+		mine := cpusOf(&p)
+		var kids []cset
+		for _, cn := range p.Children {
+			c := pools[cn]
+			if c == nil {
+				treeBad("dangling-child", "pool %s lists unknown child %s", p.Name, cn)
+				continue
+			}
+			kc := cpusOf(c)
+			if !kc.subsetOf(mine) {
+				treeBad("parent-contains-child", "pool %s (%s) does not contain the CPUs of its child %s (%s)", p.Name, mine, cn, kc)
+			}
+			for _, prev := range kids {
+				if len(prev.inter(kc)) > 0 {
+					treeBad("siblings-disjoint", "children of pool %s overlap on CPUs %s", p.Name, prev.inter(kc))
+				}
+			}
+			kids = append(kids, kc)
+			pm := setOf(p.MemDRAM).union(setOf(p.MemPMEM)).union(setOf(p.MemHBM))
+			cm := setOf(c.MemDRAM).union(setOf(c.MemPMEM)).union(setOf(c.MemHBM))
+			if !cm.subsetOf(pm) {
+				what := "child-memory-subset"
+				onlyMemless := true
+				for id := range cm.minus(pm) {
+					for _, n := range m.Nodes {
+						if n.ID == id && n.MemKB > 0 {
+							onlyMemless = false
+						}
+					}
+				}
+				if onlyMemless {
+					what += " memoryless-node-in-pool"
+				}
+				treeBad(what, "pool %s memory nodes %s are not a subset of its parent %s's %s", cn, cm, p.Name, pm)
+			}
+		}
+		if p.Parent != "" && pools[p.Parent] == nil {
+			treeBad("dangling-parent", "pool %s names unknown parent %s", p.Name, p.Parent)
+		}
+	}
+	// CPU-less PMEM/HBM nodes are attached exactly to the pools that contain
+	// one of their closest CPU-bearing DRAM nodes
+	for _, n := range m.Nodes {
+		if n.Type == "dram" || n.MemKB == 0 || len(n.CPUs) > 0 {
+			continue
+		}
+		best := 1 << 30
+		for _, d := range m.Nodes {
+			if d.Type == "dram" && len(d.CPUs) > 0 && n.Distance[d.ID] < best {
+				best = n.Distance[d.ID]
+			}
+		}
+		closest := cset{}
+		for _, d := range m.Nodes {
+			if d.Type == "dram" && len(d.CPUs) > 0 && n.Distance[d.ID] == best {
+				closest[d.ID] = true
+			}
+		}
+		for _, p := range sn.Pools {
+			if p.Name == sn.Root {
+				continue // the root holds every memory node
+			}
+			special := setOf(p.MemPMEM).union(setOf(p.MemHBM))
+			hasIt := special[n.ID]
+			should := len(setOf(p.MemDRAM).inter(closest)) > 0
+			res.Check("special-memory-attachment")
+			if hasIt != should {
+				treeBad("special-memory-attachment", "%s node %d (closest CPU-bearing DRAM nodes %s) attached=%v to pool %s (DRAM nodes %v), expected %v", n.Type, n.ID, closest, hasIt, p.Name, p.MemDRAM, should)
+			}
+		}
+	}
+}
